@@ -1,1 +1,19 @@
-// harnesses for this module (included by the isomer_erbium_verif hook)
+// Lifted logic of crates/erbium-core/src/dns/outquery.rs for the MIR dump (mirsym): which upstream reply is accepted
+// (C03 "reply accepted by id", C07 "id-mismatched or truncated UDP replies retried over TCP").  The statements of
+// handle_query_internal between `let out_reply;` and the final id check are lifted verbatim by lib/lift.py; the two
+// network exchanges are shims whose results the symbolic executor supplies.
+#[cfg(any(kani, isomer_erbium_mir))]
+pub mod lifted {
+    #![allow(dead_code, unused_imports)]
+    use super::super::*;
+    pub struct ProtoShim {
+        pub protocol: Protocol,
+    }
+    pub fn udp_shim(_addr: std::net::SocketAddr, _oq: &dnspkt::DNSPkt) -> Result<dnspkt::DNSPkt, Error> {
+        unimplemented!("summarised by the symbolic executor")
+    }
+    pub fn tcp_shim(_addr: &std::net::SocketAddr, _oq: dnspkt::DNSPkt) -> Result<dnspkt::DNSPkt, Error> {
+        unimplemented!("summarised by the symbolic executor")
+    }
+    include!(concat!(env!("VERIF_GEN_DIR"), "/outquery_accept_reply.rs"));
+}
